@@ -26,7 +26,7 @@ BUILTINS = {
     "open", "divmod", "pow", "callable", "frozenset", "RuntimeError", "OSError", "ImportError", "StopIteration",
 }
 
-NUMERIC_DTYPES = {"float32", "float64", "complex64", "complex128", "int64", "int32", "bool_", "uint8", "int8", "int16"}
+NUMERIC_DTYPES = {"float32", "float64", "complex64", "complex128", "int64", "int32", "bool_", "uint8", "int8", "int16", "uint16", "uint32", "uint64", "float16"}
 
 
 class NdArr(Val):
@@ -556,7 +556,10 @@ def nd_broadcast(ev, op, a: NdArr, b: NdArr, node, fr):
 
 def promote_dtype(da_, db_):
     """numpy result dtype of an arithmetic op between two arrays (None = unknown)."""
-    order = ["bool_", "int8", "uint8", "int16", "int32", "int64", "float16", "float32", "float64", "complex64", "complex128"]
+    order = ["bool_", "int8", "uint8", "int16", "uint16", "int32", "uint32", "int64", "uint64", "float16", "float32", "float64", "complex64", "complex128"]
+    _pair = {d.dotted[6:] for d in (da_, db_) if isinstance(d, ExtV) and d.dotted.startswith("numpy.")}
+    if _pair == {"int64", "uint64"}:
+        return ExtV("numpy.float64")          # no integer type holds both ranges
 
     def nm(d):
         return d.dotted[6:] if isinstance(d, ExtV) and d.dotted.startswith("numpy.") else None
@@ -1476,7 +1479,7 @@ def str_method(ev, recv: StrV, name, args, kwargs, fr, node):
     ev.unsupported(f"str method {name}", node, fr)
 
 
-NP_DTYPES = {"float32", "float64", "complex64", "complex128", "int64", "int32", "int16", "int8", "uint8", "bool_", "float16"}
+NP_DTYPES = {"float32", "float64", "complex64", "complex128", "int64", "int32", "int16", "int8", "uint8", "uint16", "uint32", "uint64", "bool_", "float16", "longdouble", "clongdouble"}
 
 
 def can_cast_safe(src, dst):
@@ -1626,6 +1629,14 @@ def _num_method(ev, x: Num, name, args, kwargs, fr, node):
 
 
 def nd_method(ev, x: NdArr, name, args, kwargs, fr, node):
+    if name in ("any", "all") and not args and not kwargs:
+        vals = []
+        for e in x.items:
+            t = ev.truth(e, fr, node)
+            if t not in (True, False):
+                ev.unsupported(f"method .{name}() on an explicit array with undecided elements", node, fr)
+            vals.append(t)
+        return BoolV(any(vals) if name == "any" else all(vals))
     if name == "astype":
         out = NdArr(x.shape, list(x.items))
         out.dtype = args[0] if args else kwargs.get("dtype")
@@ -2277,10 +2288,20 @@ def h_float(ev, args, kwargs, fr, node):
     if isinstance(x, Num):
         return x.like(x.expr, isfloat=True, unit=x.unit)
     if isinstance(x, StrV):
+        from .symeval import Raised
         try:
-            v = token_number(x.s)
+            float(x.s)              # the grammar of float(str) is Python's own: blanks only at the ends, one sign, one point, one exponent
+        except ValueError:
+            if "@" not in x.s:          # (symbolic number tokens of the polyco text model are not literals)
+                raise Raised("ValueError", node, f"could not convert string to float: {x.s!r}")
+        low = x.s.strip().lower()
+        if low.lstrip("+-") in ("inf", "infinity"):
+            return Num(-sp.oo if low.startswith("-") else sp.oo, isfloat=True)
+        if low.lstrip("+-") == "nan":
+            return Num(sp.nan, isfloat=True)
+        try:
+            v = token_number(x.s.strip())
         except Exception:
-            from .symeval import Raised
             raise Raised("ValueError", node, f"could not convert string to float: {x.s!r}")
         if v == 0 and x.s.strip().startswith("-"):
             return Num(0, isfloat=True, tag="negzero")      # float("-0") is the negative zero: it prints with its sign
@@ -3226,6 +3247,7 @@ def h_where(ev, args, kwargs, fr, node):
     if len(args) == 1:
         return h_nonzero(ev, args, kwargs, fr, node)        # np.where(cond) is np.nonzero(cond)
     c, a, b = args
+    ev.trace.append(("where-call", c, a, b, node))
     if isinstance(c, BoolV):
         return a if c.b else b
     if isinstance(c, NdArr):
@@ -3263,6 +3285,62 @@ def h_where(ev, args, kwargs, fr, node):
     return Num(mk_ite(ce, a.expr, b.expr), kind=("number" if scalar else "array"), shape=(() if scalar and shp is None else shp),
                isfloat=getattr(a, "isfloat", False) or getattr(b, "isfloat", False), dtype=getattr(a, "dtype", None) or getattr(b, "dtype", None),
                backend=getattr(a, "backend", None) or getattr(b, "backend", None))
+
+
+def h_signbit(ev, args, kwargs, fr, node):
+    """np.signbit: the sign BIT, set for negative numbers and for the negative zero (-0.0 < 0 is False, signbit(-0.0) is True)."""
+    x = args[0]
+    if isinstance(x, NdArr):
+        return x.map(lambda e: h_signbit(ev, [e], kwargs, fr, node))
+    if not isinstance(x, Num):
+        ev.unsupported(f"np.signbit of {x!r}", node, fr)
+    if x.tag == "negzero":
+        return BoolV(True)
+    if x.expr.is_number and x.expr.is_real:
+        return BoolV(bool(x.expr < 0))
+    c = sp.Lt(x.expr, 0)
+    if x.shape:
+        return Num(c, kind="bool", shape=x.shape, axes=x.axes)
+    return CondV(c)
+
+
+def _np_type_of(v):
+    import numpy as np
+    if isinstance(v, ExtV):
+        d = v.dotted
+        if d.startswith("numpy."):
+            nm = d[6:].split(":")[0]
+            return getattr(np, nm, None)
+        if d.startswith("builtins."):
+            return {"complex": complex, "float": float, "int": int, "bool": bool}.get(d[9:])
+    if isinstance(v, StrV):
+        try:
+            return np.dtype(v.s).type
+        except Exception:
+            return None
+    return None
+
+
+def h_issubdtype(ev, args, kwargs, fr, node):
+    """np.issubdtype, answered by the installed NumPy on the dtype names (the builtin `complex` means complex128 only)."""
+    import numpy as np
+    a, b = _np_type_of(args[0]), _np_type_of(args[1])
+    if a is None or b is None:
+        ev.unsupported(f"np.issubdtype({args[0]!r}, {args[1]!r})", node, fr)
+    return BoolV(bool(np.issubdtype(a, b)))
+
+
+def h_result_type(ev, args, kwargs, fr, node):
+    import numpy as np
+    ts = []
+    for a in args:
+        if isinstance(a, Num) and a.dtype is not None:
+            a = a.dtype
+        t = _np_type_of(a)
+        if t is None:
+            ev.unsupported(f"np.result_type of {a!r}", node, fr)
+        ts.append(np.dtype(t))
+    return ExtV("numpy." + np.result_type(*ts).name)
 
 
 def h_squeeze(ev, args, kwargs, fr, node):
@@ -3712,13 +3790,15 @@ EXT = {
     "numpy.shape": lambda ev, a, k, fr, n: h_np_shape(ev, a, k, fr, n), "numpy.broadcast_shapes": lambda ev, a, k, fr, n: h_broadcast_shapes(ev, a, k, fr, n),
     "numpy.unravel_index": lambda ev, a, k, fr, n: h_unravel_index(ev, a, k, fr, n),
     "numpy.can_cast": lambda ev, a, k, fr, n: h_can_cast(ev, a, k, fr, n),
+    "numpy.signbit": lambda ev, a, k, fr, n: h_signbit(ev, a, k, fr, n), "numpy.issubdtype": lambda ev, a, k, fr, n: h_issubdtype(ev, a, k, fr, n),
+    "numpy.result_type": lambda ev, a, k, fr, n: h_result_type(ev, a, k, fr, n), "dask.array.result_type": lambda ev, a, k, fr, n: h_result_type(ev, a, k, fr, n),
     "numpy.array": lambda ev, a, k, fr, n: h_array(ev, a, k, fr, n, strip=True, default_copy=True),
     "numpy.asarray": lambda ev, a, k, fr, n: h_array(ev, a, k, fr, n, strip=True),
     "numpy.asanyarray": h_array,
     "dask.array.asanyarray": lambda ev, a, k, fr, n: a[0].like(a[0].expr, backend="dask") if isinstance(a[0], Num) else a[0],
     "dask.array.asarray": lambda ev, a, k, fr, n: a[0].like(a[0].expr, backend="dask") if isinstance(a[0], Num) else a[0],
     "numpy.stack": h_stack, "numpy.concatenate": h_concatenate, "numpy.moveaxis": h_moveaxis, "numpy.swapaxes": h_swapaxes, "numpy.flip": h_flip, "numpy.take": h_take, "numpy.nditer": h_nditer, "numpy.broadcast_to": h_broadcast_to,
-    "numpy.prod": h_prod, "math.prod": h_prod, "numpy.where": h_where, "numpy.bool_": h_bool_,
+    "numpy.prod": h_prod, "math.prod": h_prod, "numpy.where": h_where, "dask.array.where": h_where, "numpy.bool_": h_bool_,
     "numpy.allclose": h_allclose, "numpy.isclose": h_isclose, "numpy.iscomplexobj": h_iscomplexobj,
     "numpy.fft.fftshift": _shift_like("FFTSHIFT"), "numpy.fft.ifftshift": _shift_like("IFFTSHIFT"),
     "astropy.units.Quantity": h_quantity, "astropy.coordinates.Angle": lambda ev, a, k, fr, n: h_quantity(ev, a, k, fr, n, angle=True),
@@ -3838,6 +3918,8 @@ def call_ext(ev, fn: ExtV, args, kwargs, fr, node):
         except (AttributeError, KeyError, IndexError, TypeError, AssertionError) as e:
             ev.unsupported(f"the API-table entry for {d} cannot interpret these arguments ({type(e).__name__}: {e})", node, fr)
     if d.startswith("numpy.") and d.split(".")[-1] in NUMERIC_DTYPES:
+        if not args:
+            return Num(sp.Integer(0), dtype=ExtV(d), isfloat=not d.split(".")[-1].startswith(("int", "uint", "bool")))    # np.float32() is a zero of that type
         x = args[0]
         nm = d.split(".")[-1]
         if isinstance(x, StrV):
